@@ -2,8 +2,8 @@
    Only statements, closed by [exact lemma], with Print Assumptions beneath. *)
 From Coq Require Import String List NArith ZArith Bool.
 From J5V.lib Require Import Text Outcome.
-From J5V.model Require Import BclLexer BclParser BclErrpos BclErrposText BclToFile BclFmt.
-From J5V.proofs Require Import BclPosProofs BclLexerProofs BclParserProofs BclErrposProofs BclGenProofs BclBytesProofs BclParseBytesProofs BclToFileProofs BclFragWfProofs BclDepthProofs BclErrposTextProofs BclPanicSitesProofs.
+From J5V.model Require Import BclLexer BclParser BclErrpos BclErrposText BclErrposGen BclToFile BclFmt.
+From J5V.proofs Require Import BclPosProofs BclLexerProofs BclParserProofs BclErrposProofs BclGenProofs BclBytesProofs BclParseBytesProofs BclToFileProofs BclFragWfProofs BclDepthProofs BclErrposTextProofs BclPanicSitesProofs BclErrposGenProofs.
 Import ListNotations.
 
 (* [valid_pos data p]: p is the (line, column) of a rune of the input or of its end.
@@ -87,6 +87,33 @@ Print Assumptions C11_render_total.
 Theorem C11_render_text_total : forall input context ds, exists t, human_text_bytes input context ds = Ok t.
 Proof. exact human_text_bytes_ok. Qed.
 Print Assumptions C11_render_text_total.
+
+(* diagnostics of ANY producer (model/BclErrposGen.v): err.Pos nil, a position with a file name (AddSourceFile), a
+   context path (err.Ctx), err.Err nil — HumanString's text is always produced, against any source bytes; and on the
+   parser's own diagnostics (position without file name, no context, a message) it is the text above *)
+Theorem C11_render_general_total : forall input context gs, exists t, human_text_g_bytes input context gs = Ok t.
+Proof. exact human_text_g_bytes_ok. Qed.
+Print Assumptions C11_render_general_total.
+
+Theorem C11_render_general_extends_parser : forall input context ds,
+  human_text_g_bytes input context (map gdiag_of ds) = human_text_bytes input context ds.
+Proof. exact human_text_g_bytes_parser. Qed.
+Print Assumptions C11_render_general_extends_parser.
+
+(* non-vacuity: a nil position; a file name with an empty start; a file name, a position in line 2, a context path
+   and no message *)
+Example C11_render_general_example :
+  let src := [97;10;9;98;32;61;10]%N in      (* a / (tab)b = *)
+  let f := [120;46;106;53;115]%N in          (* x.j5s *)
+  human_text_g_bytes src 1 [mkG None None (Some [109%N]);
+                            mkG (Some (Some f, (-1, -1), (-1, -1))%Z) None None;
+                            mkG (Some (Some f, (1, 1), (1, 2))%Z) (Some [[112%N]; [113%N]]) None]
+  = Ok (bytes_of "<no position information>" ++ [10%N] ++ bytes_of "Message: m" ++ [10;10]%N ++ bytes_of "-----" ++ [10%N]
+        ++ bytes_of "Position: x.j5s:" ++ [10;10]%N ++ bytes_of "-----" ++ [10%N]
+        ++ bytes_of "Position: x.j5s:2:2" ++ [10%N] ++ bytes_of "LIT: 1 1" ++ [10%N]
+        ++ bytes_of "  > 001: a" ++ [10%N] ++ bytes_of "  > 002:   b =" ++ [10%N] ++ bytes_of ">>>>>>>:   ^" ++ [10%N]
+        ++ bytes_of "Context: p.q" ++ [10%N]).
+Proof. vm_compute. reflexivity. Qed.
 
 Theorem C11_full : C11_full_statement.
 Proof.
